@@ -70,14 +70,49 @@ func patJSON(p dPat) map[string]any {
 	panic("pattern kind " + p.Kind)
 }
 
+// countingFactory hands out stores that count the operations made on them: an OIDC filter that was reached by a plain
+// request shows by what it does with its session store (how it obtains the store is its own business).
 type countingFactory struct {
 	real  oidc.SessionStoreFactory
 	calls *atomic.Int64
 }
 
 func (c *countingFactory) Get(cfg *oidcv1.OIDCConfig) oidc.SessionStore {
+	st := c.real.Get(cfg)
+	if st == nil {
+		return nil
+	}
+	return &countingStore{SessionStore: st, calls: c.calls}
+}
+
+type countingStore struct {
+	oidc.SessionStore
+	calls *atomic.Int64
+}
+
+func (c *countingStore) SetTokenResponse(ctx context.Context, id string, t *oidc.TokenResponse) error {
 	c.calls.Add(1)
-	return c.real.Get(cfg)
+	return c.SessionStore.SetTokenResponse(ctx, id, t)
+}
+func (c *countingStore) GetTokenResponse(ctx context.Context, id string) (*oidc.TokenResponse, error) {
+	c.calls.Add(1)
+	return c.SessionStore.GetTokenResponse(ctx, id)
+}
+func (c *countingStore) SetAuthorizationState(ctx context.Context, id string, a *oidc.AuthorizationState) error {
+	c.calls.Add(1)
+	return c.SessionStore.SetAuthorizationState(ctx, id, a)
+}
+func (c *countingStore) GetAuthorizationState(ctx context.Context, id string) (*oidc.AuthorizationState, error) {
+	c.calls.Add(1)
+	return c.SessionStore.GetAuthorizationState(ctx, id)
+}
+func (c *countingStore) ClearAuthorizationState(ctx context.Context, id string) error {
+	c.calls.Add(1)
+	return c.SessionStore.ClearAuthorizationState(ctx, id)
+}
+func (c *countingStore) RemoveSession(ctx context.Context, id string) error {
+	c.calls.Add(1)
+	return c.SessionStore.RemoveSession(ctx, id)
 }
 
 const staticOIDC = `{"authorization_uri":"https://idp.example/authorize","token_uri":"https://idp.example/token","callback_uri":"https://app.test/cb",
@@ -118,8 +153,12 @@ func newFilter(cfg *configv1.Config) (*server.ExtAuthZFilter, *atomic.Int64, err
 	pool := internal.NewTLSConfigPool(ctx)
 	fac := oidc.NewSessionStoreFactory(late)
 	calls := &atomic.Int64{}
-	flt := server.NewExtAuthZFilter(late, pool, oidc.NewJWKSProvider(late, pool), &countingFactory{real: fac, calls: calls})
+	jw := oidc.NewJWKSProvider(late, pool)
+	flt := server.NewExtAuthZFilter(late, pool, jw, &countingFactory{real: fac, calls: calls})
 	proto.Merge(late, cfg) // "the configuration file is loaded"
+	if pr, ok := any(jw).(interface{ PreRun() error }); ok {
+		_ = pr.PreRun() // (the key provider has no serving loop to start here: these cases use static key sets)
+	}
 	if err := fac.PreRun(); err != nil {
 		return nil, nil, err
 	}
@@ -233,6 +272,11 @@ func runDispatchFile(in, out, targetsFile, tmp string) (int, error) {
 				chains = append(chains, cd)
 			}
 			cfg, err := loadDispatchConfig(map[string]any{"chains": chains, "allow_unmatched_requests": c.AllowUnmatched}, tmp)
+			if err != nil && c.DupNames {
+				// a loader may refuse chains that share a name (rejecting is always allowed): the case does not apply
+				rec.emit(map[string]any{"ev": "dskip", "id": c.ID, "why": "loader rejects equal chain names"})
+				continue
+			}
 			if err != nil {
 				return n, fmt.Errorf("%s: %w", c.ID, err)
 			}
@@ -276,6 +320,9 @@ func runDispatchFile(in, out, targetsFile, tmp string) (int, error) {
 				if calls.Load() > before {
 					reached = 1
 				}
+				if _, shaped := h["~shape"]; shaped {
+					reached = -1 // a malformed callback is denied before any store is used: whether the filter was reached does not show
+				}
 				results = append(results, map[string]any{"outcome": o, "oidc": reached})
 			}
 			chl := []any{}
@@ -309,6 +356,11 @@ func runDispatchFile(in, out, targetsFile, tmp string) (int, error) {
 			doc["trigger_rules"] = rules
 		}
 		cfg, err := loadDispatchConfig(doc, tmp)
+		if err != nil && hasInvalidRegex(c.Rules) {
+			// a loader may refuse a trigger rule whose regular expression does not compile: the case does not apply
+			rec.emit(map[string]any{"ev": "dskip", "id": c.ID, "why": "loader rejects an invalid regular expression"})
+			continue
+		}
 		if err != nil {
 			return n, fmt.Errorf("%s: %w", c.ID, err)
 		}
@@ -396,3 +448,15 @@ func runDispatchFile(in, out, targetsFile, tmp string) (int, error) {
 }
 
 var _ = rand.Int
+
+
+func hasInvalidRegex(rules []dRule) bool {
+	for _, r := range rules {
+		for _, p := range append(append([]dPat{}, r.Excl...), r.Incl...) {
+			if p.Kind == "reInvalid" {
+				return true
+			}
+		}
+	}
+	return false
+}
